@@ -25,12 +25,14 @@ for fl in ark min; do
   subs="C01 C02 C03 C04 C05 C06 C07 C08 C09 lazyinit C10 C11 constants transcript"
   [ $fl = ark ] && subs="$subs C13 C14 C15 C16"
   for s in $subs; do
-    LLVM_PROFILE_FILE="$prof/$s-%p.profraw" "$exe" $s --tier "$tier" --seed "${VERIF_SEED:-1}" --out "$prof/$s.json" 2>&1 | tail -1
+    # few worker threads: the counters of the (huge, generated) fiat functions are shared by all threads and
+    # the cache-line traffic of 16 of them makes the instrumented run slower by orders of magnitude
+    VERIF_WORKERS="${COV_WORKERS:-3}" LLVM_PROFILE_FILE="$prof/$s-%p.profraw" "$exe" $s --tier "$tier" --seed "${VERIF_SEED:-1}" --out "$prof/$s.json" 2>&1 | tail -1
   done
   "$bin/llvm-profdata" merge -sparse "$prof"/*.profraw -o "$prof/all.profdata"
   "$bin/llvm-cov" report "$exe" -instr-profile="$prof/all.profdata" --ignore-filename-regex="/verif/" > "$here/coverage/$fl.txt" 2>/dev/null
   "$bin/llvm-cov" show "$exe" -instr-profile="$prof/all.profdata" --ignore-filename-regex="/verif/" --show-line-counts-or-regions=false 2>/dev/null \
-    | awk '/^\/repo\/src.*:$/ {f=$0; next} /^ +[0-9]+\| +0\|/ {print f" "$0}' > "$here/coverage/$fl.uncovered"
+    | awk '/^\/repo\/src.*:$/ {f=$0; next} /^ +[0-9]+\| +0\|/ {print f" "$0}' | grep -v "fiat.rs" > "$here/coverage/$fl.uncovered"
   rm -f "$prof"/*.profraw "$here"/target/cov/build-*.profraw
   echo "coverage[$fl]: $(tail -1 "$here/coverage/$fl.txt")"
 done
